@@ -974,7 +974,7 @@ var M = &run.Monitor{
 				u = append(u, fmt.Sprintf("%s=%d < %d", k, c[k], n))
 			}
 		}
-		need("types", 3000)
+		need("types", 1500)
 		need("resolved_by_depth", 1000)
 		need("resolved_by_tag", 100)
 		need("names_dropped", 300)
@@ -983,12 +983,12 @@ var M = &run.Monitor{
 		need("probe_to_fallback", 200)
 		need("probe_unknown_rejected", 200)
 		need("types_over_64_fields", 10)
-		need("types_over_128_fields", 5)
-		need("dup_probes_beyond_64", 20)
+		need("types_over_128_fields", 3)
+		need("dup_probes_beyond_64", 15)
 		need("members_absent_nil_embedded_pointer", 100)
 		need("omitted_by_omitempty_only", 300)
 		need("omitted_by_omitzero_only", 300)
-		need("string_option_checked", 300)
+		need("string_option_checked", 150)
 		need("v1_probes_matched", 2000)
 		return u
 	},
